@@ -49,7 +49,7 @@ fn standalone(p: &Pool, ti: usize, di: usize) -> String {
         Err(_) => return "parser-build-error".into(),
     };
     match parser.parse(&p.mains[ti]) {
-        Ok(t) => render(&t, &p.datas[di].to_object()).summary(),
+        Ok(t) => render(&t, &p.datas[di].to_object()).summary_with_error(),
         Err(_) => "parse-error".into(),
     }
 }
@@ -104,7 +104,7 @@ fn round(p: &Pool, rc: &RoundCfg, seed: u64) -> Result<(Vec<Call>, Vec<crate::ps
                     0 => {
                         // parse on the shared parser, then render the new template
                         let got = match crate::mon::guard(|| parser.parse(&mains[ti])) {
-                            Ok(Ok(t)) => render(&t, &datas[di]).summary(),
+                            Ok(Ok(t)) => render(&t, &datas[di]).summary_with_error(),
                             Ok(Err(_)) => "parse-error".to_string(),
                             Err(p) => format!("panic:{}", p.key()),
                         };
@@ -120,7 +120,7 @@ fn round(p: &Pool, rc: &RoundCfg, seed: u64) -> Result<(Vec<Call>, Vec<crate::ps
                                         Ok(s) => format!("ok:{s}"),
                                         Err(_) => "bad-utf8".to_string(),
                                     },
-                                    Ok(Err(_)) => "err".to_string(),
+                                    Ok(Err(e)) => format!("err:{}", crate::exec::first_line(&e)),
                                     Err(p) => format!("panic:{}", p.key()),
                                 }
                             }
@@ -130,7 +130,7 @@ fn round(p: &Pool, rc: &RoundCfg, seed: u64) -> Result<(Vec<Call>, Vec<crate::ps
                     }
                     _ => {
                         let got = match &templates[ti] {
-                            Some(t) => render(t, &datas[di]).summary(),
+                            Some(t) => render(t, &datas[di]).summary_with_error(),
                             None => "parse-error".to_string(),
                         };
                         ("render", got)
@@ -183,7 +183,7 @@ fn round(p: &Pool, rc: &RoundCfg, seed: u64) -> Result<(Vec<Call>, Vec<crate::ps
     for ti in 0..p.mains.len() {
         for di in 0..p.datas.len() {
             let got = match crate::mon::guard(|| parser.parse(&p.mains[ti])) {
-                Ok(Ok(t)) => render(&t, &datas[di]).summary(),
+                Ok(Ok(t)) => render(&t, &datas[di]).summary_with_error(),
                 Ok(Err(_)) => "parse-error".to_string(),
                 Err(pn) => format!("panic:{}", pn.key()),
             };
@@ -216,14 +216,18 @@ fn gen_pool(r: &mut Rng) -> Pool {
         allow_toplevel_interrupt: true,
         ..Opts::default()
     };
-    let mut p = pool(r, 3, 2, 3, true, &opts);
+    let mut p = pool(r, 3, 2, 3, false, &opts);
+    // a broken partial and a missing name, used on a dead path by template 0 and on executed
+    // paths by template 2 (so their first, failing, lazy compilation is contended as well)
+    p.partials.push(("pbroken".into(), "{% if %}".into()));
     // make sure partials and the process-wide regex caches (strip_html, date) are exercised
-    p.mains[0].push_str("{% include 'p0' %}{% render 'p1', a: a, b: b, c: c, d: d %}{{ '<b>x</b>' | strip_html }}{{ '2020-01-02' | date: '%Y' }}{% for i in (1..3) %}{% cycle 'q': 1, 2 %}{% increment n %}{% ifchanged %}{{ i }}{% endifchanged %}{% endfor %}");
+    p.mains[0].push_str("{% include 'p0' %}{% render 'p1', a: a, b: b, c: c, d: d %}{{ '<b>x</b>' | strip_html }}{{ '2020-01-02' | date: '%Y' }}{% for i in (1..3) %}{% cycle 'q': 1, 2 %}{% increment n %}{% ifchanged %}{{ i }}{% endifchanged %}{% endfor %}{% if false %}{% include 'pbroken' %}{% render 'missing' %}{% endif %}");
     if p.mains.len() > 1 {
         p.mains[1].push_str("{% capture q %}{% include 'p2' %}{% endcapture %}{{ q | size }}");
     }
     if p.mains.len() > 2 {
-        p.mains[2].push_str("{% render 'missing' %}");
+        let tail = if r.chance(1, 2) { "{% include 'pbroken' %}" } else { "{% render 'missing' %}" };
+        p.mains[2].push_str(tail);
     }
     p
 }
@@ -240,9 +244,10 @@ pub fn run(ctx: &mut Ctx, args: &[String]) {
         }
         let mut r = rng.fork(i);
         let p = gen_pool(&mut r);
+        let max_calls: usize = args.iter().position(|a| a == "--max-calls").and_then(|i| args.get(i + 1)).and_then(|s| s.parse().ok()).unwrap_or(50);
         let rc = RoundCfg {
             threads: (*r.pick(&[2usize, 2, 3, 4, 4, 8, 16])).min(max_threads),
-            calls: 10 + r.below(41),
+            calls: (10 + r.below(41)).min(max_calls),
             policy: if r.chance(3, 4) { Policy::Lazy } else { Policy::Eager },
             delay: *r.pick(&[Delay::None, Delay::Yield, Delay::Yield, Delay::Sleep(50), Delay::Sleep(500)]),
             skew: r.chance(1, 2),
